@@ -3,4 +3,6 @@ INVARIANT KnownEvent
 INVARIANT Cl_ArgsUnchanged
 INVARIANT Cl_BuiltinsUnchanged
 INVARIANT Cl_SameAsFresh
+INVARIANT Cl_CallsKeepHeld
+INVARIANT Cl_SameAsFreshOnHeld
 CHECK_DEADLOCK FALSE
